@@ -6,7 +6,8 @@ set -u
 cd "$VERIF_ROOT/mc" || exit 3
 cp "$REPO/go.sum" "$VERIF_ROOT/mc/go.sum" 2>/dev/null
 # (background runs on a snapshot may point at their own copy of the repository)
-if [ "$REPO" != "/repo" ]; then
+# (always written, so that a run on a copy never leaves the module pointing at that copy)
+if ! grep -q "^replace github.com/lidofinance/dc4bc => $REPO\$" "$VERIF_ROOT/mc/go.mod"; then
   sed -i "s|^replace github.com/lidofinance/dc4bc => .*|replace github.com/lidofinance/dc4bc => $REPO|" "$VERIF_ROOT/mc/go.mod"
 fi
 (
